@@ -591,7 +591,9 @@ func didDomains(e *domEnv, thorough bool) []*msgDom {
 			}
 		})},
 		{Label: "none", Odd: true, Set: withDoc(func(d *didtypes.DIDDocument) { d.Authentications = nil })},
-		{Label: "dangling-ref", Odd: true, Set: withDoc(func(d *didtypes.DIDDocument) { d.Authentications = []didtypes.VerificationRelationship{ref(d, "nokey")} })},
+		{Label: "dangling-ref", Odd: true, Set: withDoc(func(d *didtypes.DIDDocument) {
+			d.Authentications = []didtypes.VerificationRelationship{ref(d, "nokey")}
+		})},
 		{Label: "dedicated-valid", Odd: true, Set: withDoc(func(d *didtypes.DIDDocument) {
 			d.Authentications = []didtypes.VerificationRelationship{didtypes.NewVerificationRelationshipDedicated(*vmOf(d, "ded", es256k, pub))}
 		})},
@@ -624,15 +626,23 @@ func didDomains(e *domEnv, thorough bool) []*msgDom {
 		{Label: "w3c", Set: withDoc(func(d *didtypes.DIDDocument) { d.Contexts = &didtypes.JSONStringOrStrings{w3c} })},
 		{Label: "w3c-first-of-two", Odd: true, Set: withDoc(func(d *didtypes.DIDDocument) { d.Contexts = &didtypes.JSONStringOrStrings{w3c, "https://x"} })},
 		{Label: "w3c-second", Odd: true, Set: withDoc(func(d *didtypes.DIDDocument) { d.Contexts = &didtypes.JSONStringOrStrings{"https://x", w3c} })},
-		{Label: "duplicate", Odd: true, Set: withDoc(func(d *didtypes.DIDDocument) { d.Contexts = &didtypes.JSONStringOrStrings{w3c, "https://x", "https://x"} })},
+		{Label: "duplicate", Odd: true, Set: withDoc(func(d *didtypes.DIDDocument) {
+			d.Contexts = &didtypes.JSONStringOrStrings{w3c, "https://x", "https://x"}
+		})},
 		{Label: "empty-string", Odd: true, Set: withDoc(func(d *didtypes.DIDDocument) { d.Contexts = &didtypes.JSONStringOrStrings{w3c, ""} })},
 		{Label: "empty-list", Odd: true, Set: withDoc(func(d *didtypes.DIDDocument) { d.Contexts = &didtypes.JSONStringOrStrings{} })},
 	}}
 	svcField := fdom{Name: "services", Classes: []fclass{
 		{Label: "none", Set: func(sdk.Msg) {}},
-		{Label: "complete", Odd: true, Set: withDoc(func(d *didtypes.DIDDocument) { d.Services = []*didtypes.Service{{Id: "s", Type: "t", ServiceEndpoint: "e"}} })},
-		{Label: "id-empty", Odd: true, Set: withDoc(func(d *didtypes.DIDDocument) { d.Services = []*didtypes.Service{{Id: "", Type: "t", ServiceEndpoint: "e"}} })},
-		{Label: "type-empty", Odd: true, Set: withDoc(func(d *didtypes.DIDDocument) { d.Services = []*didtypes.Service{{Id: "s", Type: "", ServiceEndpoint: "e"}} })},
+		{Label: "complete", Odd: true, Set: withDoc(func(d *didtypes.DIDDocument) {
+			d.Services = []*didtypes.Service{{Id: "s", Type: "t", ServiceEndpoint: "e"}}
+		})},
+		{Label: "id-empty", Odd: true, Set: withDoc(func(d *didtypes.DIDDocument) {
+			d.Services = []*didtypes.Service{{Id: "", Type: "t", ServiceEndpoint: "e"}}
+		})},
+		{Label: "type-empty", Odd: true, Set: withDoc(func(d *didtypes.DIDDocument) {
+			d.Services = []*didtypes.Service{{Id: "s", Type: "", ServiceEndpoint: "e"}}
+		})},
 		{Label: "endpoint-empty", Odd: true, Set: withDoc(func(d *didtypes.DIDDocument) {
 			d.Services = []*didtypes.Service{{Id: "s", Type: "t", ServiceEndpoint: "e"}, {Id: "s2", Type: "t", ServiceEndpoint: ""}}
 		})},
